@@ -689,7 +689,7 @@ class _Stop(Exception):
 
 def iframe_policy(ctx, rule, fnq, make_args, expect, what, accessors=('get_parent', 'get_children', 'get_contents',
                                                                       'get_descendants', 'get_tag_descendants', 'get_text',
-                                                                      'get_own_text'), self_fields=None, first_only=True, extra_stubs=None):
+                                                                      'get_own_text'), self_fields=None, first_only=True, extra_stubs=None, required=True):
     """Interpret `fnq` up to its first tree walk and compare the `no_iframe` argument it passes with the policy.
     `expect(is_html, iframe_restrict)` gives the required value; `what` says why (used in the report)."""
     mod, fn = ctx.src.func(fnq)
@@ -727,6 +727,9 @@ def iframe_policy(ctx, rule, fnq, make_args, expect, what, accessors=('get_paren
             if not seen:
                 raise AnalysisError(f'{fnq}: outside the evaluable fragment before any tree walk: {e}')
         if not seen:
+            if not required:
+                rule.note(f'{fnq}: no tree walk reached for this input - nothing to compare')
+                continue
             raise AnalysisError(f'{fnq}: no tree walk ({", ".join(accessors)}) was reached (anchor vanished)')
         exp = expect(is_html, restrict)
         for i, (acc, got) in enumerate(seen if not first_only else seen[:1]):
@@ -1443,3 +1446,271 @@ def pattern_handover_table(ctx, rule, flags=(0, 1)):
                        f'altered before parsing' + ('' if top_level_ok(trace) else f'; process_selectors is called with {trace.get("process_args")}: '
                        f'the public flags (DEBUG = 1) are not the parser-private FLG_* bits - the top-level list must be parsed with '
                        f'index 0 and flags 0'))
+
+
+# ---- tree walks on small abstract bs4 trees (bounded: a finite family of shapes chosen to exercise every branch) ---------------
+from ..tables import TextNode, build_tree  # noqa: E402
+
+_IF = ('iframe', {'_label': 'if'}, [('html', {}, [('p', {'_label': 'inner'}, ['in'])])])
+TREES = {
+    'iframe followed by a sibling': [('html', {'_label': 'root'}, [('body', {}, [('div', {'_label': 'd'}, ['t1', _IF, ('b', {}, []), ('#comment', 'c')])])])],
+    'iframe is the last child, text follows its parent': [('html', {'_label': 'root'}, [('body', {}, [('div', {'_label': 'd'}, [('a', {}, []), _IF]), ('c', {}, ['after'])])])],
+    'iframe subtree ends the document': [('html', {'_label': 'root'}, [('body', {}, [('div', {'_label': 'd'}, [('iframe', {'_label': 'if'}, [('x', {}, []), ('y', {}, [('z', {}, [])])])])])])],
+    'empty iframe': [('html', {'_label': 'root'}, [('body', {}, [('div', {'_label': 'd'}, [('iframe', {'_label': 'if'}, []), ('e', {}, [])])])])],
+    'nested iframes': [('html', {'_label': 'root'}, [('div', {'_label': 'd'}, [('iframe', {'_label': 'if'}, [('iframe', {}, [('q', {}, [])]), ('r', {}, [])]), ('s', {}, [])])])],
+    'iframe with text only, tail text': [('html', {'_label': 'root'}, [('body', {}, [('div', {'_label': 'd'}, [('iframe', {'_label': 'if'}, ['only text'])]), 'tail'])])],
+    'several top-level nodes, iframe ends the second': [('p', {'_label': 'root'}, ['x']), ('div', {'_label': 'd'}, ['y', ('iframe', {'_label': 'if'}, [('html', {}, [('p', {}, [])])])])],
+    'no iframe': [('html', {'_label': 'root'}, [('div', {'_label': 'd'}, ['a', ('b', {}, [('c', {}, ['x'])]), ('#cdata', 'raw'), ('e', {}, [])])])],
+}
+
+
+def _kids(n):
+    return [] if isinstance(n, TextNode) else n.get('contents')
+
+
+def _is_iframe(n):
+    return not isinstance(n, TextNode) and str(n.get('name')).lower() == 'iframe'
+
+
+def descendants_table(ctx, rule):
+    """get_descendants(el, tags, no_iframe) against the definition: the nodes below el in document order, without the
+    content of iframe elements when no_iframe is set (nothing at all if el itself is such an iframe)."""
+    from ..tables import matcher_obj
+    fnq = 'css_match._DocumentNav.get_descendants'
+    mod, fn = ctx.src.func(fnq)
+
+    def ref(n, tags, no_iframe, top=True):
+        if top and no_iframe and _is_iframe(n):
+            return []
+        out = []
+        for c in _kids(n):
+            if isinstance(c, TextNode):
+                if not tags:
+                    out.append(c)
+            else:
+                out.append(c)
+                if not (no_iframe and _is_iframe(c)):
+                    out += ref(c, tags, no_iframe, False)
+        return out
+    bad = None
+    for what, spec in TREES.items():
+        doc, order, labels = build_tree(spec)
+        me = matcher_obj(is_xml=False, is_html=True, root=labels['root'])
+        stubs = {'css_match.CSSMatch.supports_namespaces': lambda: False, 'util.lower': strict_lower}
+        starts = [doc] + [n for n in order if not isinstance(n, TextNode)]
+        for start in starts:
+            for tags, no_iframe in itertools.product((False, True), (False, True)):
+                try:
+                    got = call_function(ctx, fnq, [start], {'tags': tags, 'no_iframe': no_iframe}, stubs, me)
+                    got = list(got)
+                except Raised as e:
+                    got = f'raises {e.exc_name}'
+                except Unsupported as e:
+                    raise AnalysisError(f'get_descendants: outside the evaluable fragment: {e}')
+                exp = ref(start, tags, no_iframe)
+                ok = isinstance(got, list) and len(got) == len(exp) and all(a is b for a, b in zip(got, exp))
+                rule.instance({'tree': what, 'start': repr(start), 'tags': tags, 'no_iframe': no_iframe, 'nodes': len(exp), 'agrees': ok},
+                              key=f'desc|{what}|{order.index(start) if start in order else -1}|{tags}|{no_iframe}', sample_cap=3)
+                if not ok and bad is None:
+                    bad = (what, start, tags, no_iframe, got, exp)
+    rule.obligation(bad is None)
+    if bad is not None:
+        what, start, tags, no_iframe, got, exp = bad
+        rule.violation('css_match._DocumentNav.get_descendants walk', mod.where(fn),
+                       f'get_descendants({start!r}, tags={tags}, no_iframe={no_iframe}) on the tree "{what}" yields '
+                       f'{got if isinstance(got, str) else [repr(x) for x in got]}; the nodes below it in document order'
+                       f'{" outside iframe content" if no_iframe else ""} are {[repr(x) for x in exp]}: the walk leaves the subtree, skips '
+                       f'nodes after an iframe, enters iframe content or fails')
+
+
+def children_table(ctx, rule):
+    """get_children / get_tag_children(el, start, reverse, tags) over an element with four children of mixed kinds."""
+    from ..tables import matcher_obj
+    spec = [('div', {'_label': 'root'}, ['t0', ('a', {'_label': 'a'}, []), ('#comment', 'c'), ('b', {'_label': 'b'}, [])])]
+    doc, order, labels = build_tree(spec)
+    el = labels['root']
+    kids = el.get('contents')
+    me = matcher_obj(is_xml=False, is_html=True, root=el)
+    stubs = {'css_match.CSSMatch.supports_namespaces': lambda: False, 'util.lower': strict_lower}
+    bad = None
+    for fname in ('get_children', 'get_tag_children'):
+        fnq = f'css_match._DocumentNav.{fname}'
+        mod, fn = ctx.src.func(fnq)
+        for start, reverse, tags in itertools.product((None, 0, 1, 3, 4, -1), (False, True), (False, True)):
+            kw = {'start': start, 'reverse': reverse}
+            if fname == 'get_children':
+                kw['tags'] = tags
+            elif tags is False:
+                continue
+            try:
+                got = list(call_function(ctx, fnq, [el], kw, stubs, me))
+            except Raised as e:
+                got = f'raises {e.exc_name}'
+            except Unsupported as e:
+                raise AnalysisError(f'{fname}: outside the evaluable fragment: {e}')
+            last = len(kids) - 1
+            idx = (last if reverse else 0) if start is None else start
+            seq = []
+            if 0 <= idx <= last:
+                rng = range(idx, -1, -1) if reverse else range(idx, last + 1)
+                seq = [kids[i] for i in rng]
+            only_tags = tags or fname == 'get_tag_children'
+            exp = [n for n in seq if not only_tags or not isinstance(n, TextNode)]
+            ok = isinstance(got, list) and len(got) == len(exp) and all(a is b for a, b in zip(got, exp))
+            rule.instance({'accessor': fname, 'start': start, 'reverse': reverse, 'tags': only_tags, 'agrees': ok},
+                          key=f'children|{fname}|{start}|{reverse}|{tags}', sample_cap=3)
+            if not ok and bad is None:
+                bad = (fname, start, reverse, only_tags, got, exp, mod.where(fn))
+    rule.obligation(bad is None)
+    if bad is not None:
+        fname, start, reverse, tags, got, exp, where = bad
+        rule.violation(f'css_match._DocumentNav.{fname} enumeration', where,
+                       f'{fname}(el, start={start}, reverse={reverse}, tags={tags}) over the children [text, <a>, comment, <b>] yields '
+                       f'{got if isinstance(got, str) else [repr(x) for x in got]}, expected {[repr(x) for x in exp]} (from index `start` - or '
+                       f'the first/last child - towards the {"front" if reverse else "end"})')
+
+
+def root_table(ctx, rule):
+    """match_root over the documents in which an element is / is not the root: a root has no sibling that is an element, a
+    non-blank text node or a CDATA section (comments, doctype, processing instructions and blank text are allowed)."""
+    from ..tables import matcher_obj
+    fnq = 'css_match.CSSMatch.match_root'
+    mod, fn = ctx.src.func(fnq)
+    R = ('html', {'_label': 'root'}, [('body', {'_label': 'body'}, [])])
+    cases = {
+        'root alone': ([R], True), 'blank text around': (['  \n', R, '\n'], True), 'comment before': ([('#comment', 'c'), R], True),
+        'doctype and processing instruction': ([('#doctype', 'html'), R, ('#pi', 'x')], True),
+        'text before': (['text', R], False), 'text after': ([R, ' tail '], False), 'CDATA after': ([R, ('#cdata', 'raw')], False),
+        'CDATA before': ([('#cdata', 'raw'), R], False), 'another element after': ([R, ('p', {}, [])], False),
+        'another element before': ([('p', {}, []), R], False), 'comment then text after': ([R, ('#comment', 'c'), 'x'], False),
+    }
+    bad = None
+    for what, (spec, exp) in cases.items():
+        doc, order, labels = build_tree(spec)
+        me = matcher_obj(is_xml=False, is_html=True, root=labels['root'])
+        stubs = {'css_match.CSSMatch.supports_namespaces': lambda: False, 'util.lower': strict_lower}
+        for target, e_ in ((labels['root'], exp), (labels['body'], False)):
+            try:
+                got = bool(call_function(ctx, fnq, [target], {}, stubs, me))
+            except Raised as e:
+                got = f'raises {e.exc_name}'
+            except Unsupported as e:
+                raise AnalysisError(f'match_root: outside the evaluable fragment: {e}')
+            rule.instance({'document': what, 'element': repr(target), ':root': got, 'expected': e_}, key=f'root|{what}|{target!r}', sample_cap=3)
+            if got != e_ and bad is None:
+                bad = (what, target, got, e_)
+    rule.obligation(bad is None)
+    if bad is not None:
+        what, target, got, e_ = bad
+        rule.violation('css_match.CSSMatch.match_root table', mod.where(fn),
+                       f'match_root({target!r}) in the document "{what}" is {got}, expected {e_}: the root element is the only top-level '
+                       f'node apart from comments, the doctype, processing instructions and blank text')
+
+
+def nth_bounded_table(ctx, rule):
+    """match_nth against the definition of An+B on small sibling lists (bounded: |a| <= 3, |b| <= 3, up to seven child nodes of
+    mixed kinds).  The arithmetic over all integers is not decided by this table; it exercises every branch of the index
+    search (variable / constant index, negative step, from the end, of-type, of S)."""
+    from ..tables import matcher_obj
+    fnq = 'css_match.CSSMatch.match_nth'
+    mod, fn = ctx.src.func(fnq)
+    lists = {
+        'mixed': [('p', {}, []), 't', ('span', {}, []), ('p', {}, []), ('#comment', 'c'), ('p', {}, []), ('span', {}, [])],
+        'single': [('p', {}, [])],
+        'pair, text first': ['x', ('span', {}, []), ('p', {}, [])],
+    }
+    DEFAULT = Obj(_name='CSS_NTH_OF_S_DEFAULT', __bool__=True, __len__=1, __iter__=[Obj(_name='*|*')], names=None)
+    ONLY_P = Obj(_name='of p', __bool__=True, __len__=1, __iter__=[Obj(_name='p')], names=('p',))
+    EMPTY = Obj(_name='SelectorList()', __bool__=False, __len__=0, __iter__=[], names=None)
+    specs = []
+    for a, b in itertools.product((-2, -1, 0, 1, 2, 3), (-3, -1, 0, 1, 2, 4)):
+        specs.append((a, True, b))
+    for a in (0, 1, 2, 3, 6):
+        specs.append((a, False, 0))
+    bad = None
+    n_cases = 0
+    for lname, kids in lists.items():
+        doc, order, labels = build_tree([('div', {'_label': 'root'}, kids)])
+        parent = labels['root']
+        tags = [c for c in parent.get('contents') if not isinstance(c, TextNode)]
+        me = matcher_obj(is_xml=False, is_html=True, root=parent)
+
+        def match_selectors(el, sel):
+            names = sel.get('names')
+            return True if names is None else el.get('name') in names
+        stubs = {'css_match.CSSMatch.supports_namespaces': lambda: False, 'util.lower': strict_lower,
+                 'css_match.CSSMatch.match_selectors': match_selectors}
+        for (a, var, b), last, mode in itertools.product(specs, (False, True), ('child', 'of-type', 'of p')):
+            of_type = mode == 'of-type'
+            sels = EMPTY if of_type else (ONLY_P if mode == 'of p' else DEFAULT)
+            nth = Obj(_cls='css_types.SelectorNth', _name='SelectorNth', a=a, n=var, b=b, of_type=of_type, last=last, selectors=sels)
+            for el in tags:
+                try:
+                    got = bool(call_function(ctx, fnq, [el, (nth,)], {}, stubs, me))
+                except Raised as e:
+                    got = f'raises {e.exc_name}'
+                except Unsupported as e:
+                    raise AnalysisError(f'match_nth: outside the evaluable fragment: {e}')
+                if of_type:
+                    cand = [c for c in tags if c.get('name') == el.get('name')]
+                elif mode == 'of p':
+                    cand = [c for c in tags if c.get('name') == 'p']
+                else:
+                    cand = list(tags)
+                if last:
+                    cand = cand[::-1]
+                if not any(c is el for c in cand):
+                    exp = False
+                else:
+                    pos = [i for i, c in enumerate(cand) if c is el][0] + 1
+                    exp = (pos == a) if not var else any(a * k + b == pos for k in range(0, 12))
+                n_cases += 1
+                if got != exp and bad is None:
+                    bad = (lname, a, var, b, last, mode, el, got, exp, [repr(c) for c in parent.get('contents')])
+        rule.instance({'siblings': lname, 'cases': n_cases}, key=f'nth-bounded|{lname}')
+    rule.obligation(bad is None)
+    if bad is not None:
+        lname, a, var, b, last, mode, el, got, exp, kids = bad
+        form = f'{a}n{b:+d}' if var else f'{a}'
+        rule.violation('css_match.CSSMatch.match_nth table', mod.where(fn),
+                       f'match_nth: :nth-{"last-" if last else ""}{"of-type" if mode == "of-type" else "child"}({form}'
+                       f'{" of p" if mode == "of p" else ""}) on {el!r} among the children {kids} gives {got}, the definition gives {exp}')
+
+
+def select_limit_table(ctx, rule):
+    """CSSMatch.select(limit) over a target with four descendants and every match vector: the first `limit` matching
+    descendants in document order (all of them for limit 0) - bounded in the number of candidates, exhaustive in the vector."""
+    fnq = 'css_match.CSSMatch.select'
+    mod, fn = ctx.src.func(fnq)
+    from ..tables import el_obj, matcher_obj
+    cands = [el_obj(f'c{i}') for i in range(4)]
+    bad = None
+    n = 0
+    for vec in itertools.product((False, True), repeat=4):
+        for limit in (0, 1, 2, 3, 4, 7, -1, -3):
+            truth = {id(c): v for c, v in zip(cands, vec)}
+            me = matcher_obj(is_xml=False, is_html=True, tag=el_obj('target'))
+            stubs = {'css_match._DocumentNav.get_descendants': lambda el, *a, **k: list(cands),
+                     'css_match._DocumentNav.get_tag_descendants': lambda el, *a, **k: list(cands),
+                     'css_match.CSSMatch.match': lambda el: truth[id(el)]}
+            try:
+                got = list(call_function(ctx, fnq, [limit], {}, stubs, me))
+            except Raised as e:
+                got = f'raises {e.exc_name}'
+            except Unsupported as e:
+                raise AnalysisError(f'CSSMatch.select: outside the evaluable fragment: {e}')
+            exp = [c for c in cands if truth[id(c)]]
+            if limit > 0:
+                exp = exp[:limit]
+            ok = isinstance(got, list) and len(got) == len(exp) and all(a is b for a, b in zip(got, exp))
+            n += 1
+            if not ok and bad is None:
+                bad = (vec, limit, got, exp)
+    rule.instance({'CSSMatch.select(limit)': 'four candidates x every match vector x limits 0,1,2,3,4,7,-1,-3', 'cases': n}, key='select-limit')
+    rule.obligation(bad is None)
+    if bad is not None:
+        vec, limit, got, exp = bad
+        rule.violation('css_match.CSSMatch.select limit', mod.where(fn),
+                       f'CSSMatch.select(limit={limit}) over descendants matching {list(vec)} yields '
+                       f'{got if isinstance(got, str) else [repr(x) for x in got]}, expected {[repr(x) for x in exp]}: the first `limit` '
+                       f'matches in document order (all of them for a limit below 1)')
